@@ -600,9 +600,9 @@ def build(g):
     RK = {'requires': ['wf(board.board)', 'on_board(row as int, col as int)'],
           'ensures': A_ENS('slider_target(board.board, piece.color, row as int, col as int, %s, move_generation_mode, rook_dirs(), 4)'),
           'body_start': 'let ghost row_0 = row as int; let ghost col_0 = col as int;',
-          'loops': {0: o, 1: i}, 'expect': {'loops': ['for', 'while']}}
+          'loops': {0: o, 1: i}, 'expect': {'loops': ['for', 'while'], 'contains': ['&[(1, 0), (-1, 0), (0, 1), (0, -1)]']}}
     ob, ib = slider_ann('bishop_dirs()', 'bishop_moves')
-    BK = dict(RK); BK['ensures'] = [e.replace('rook_dirs()', 'bishop_dirs()') for e in RK['ensures']]; BK['loops'] = {0: ob, 1: ib}
+    BK = dict(RK); BK['ensures'] = [e.replace('rook_dirs()', 'bishop_dirs()') for e in RK['ensures']]; BK['loops'] = {0: ob, 1: ib}; BK['expect'] = {'loops': ['for', 'while'], 'contains': ['&[(1, -1), (1, 1), (-1, 1), (-1, -1)]']}
     g.add(SPEC_K, SPEC_SL)
     g.add('impl Square {',
           g.fn('board', 'is_empty_or_color', {'ret': 'res', 'ensures': ['res == (match self { Square::Full(p) => p.color == color, Square::Empty => true, _ => false })']}, impl='Square', qual='Square::is_empty_or_color', props=P),
